@@ -109,8 +109,12 @@ class Interconnect:
         async def proc_read():
             await master.rdaddr.valid
 
-            for slv in self._all_slaves():
+            # the background range answers only addresses no slave contains
+            self._background.rd_active <<= True
+
+            for slv in self._slaves:
                 if slv.contains_addr(master.rdaddr.araddr):
+                    self._background.rd_active <<= False
                     slv.rd_active <<= True
 
             await cohdl.expr(master.rddata.valid & master.rddata.ready)
@@ -122,8 +126,11 @@ class Interconnect:
         async def proc_write():
             await master.wraddr.valid
 
-            for slv in self._all_slaves():
+            self._background.wr_active <<= True
+
+            for slv in self._slaves:
                 if slv.contains_addr(master.wraddr.awaddr):
+                    self._background.wr_active <<= False
                     slv.wr_active <<= True
 
             await cohdl.expr(master.wrresp.valid & master.wrresp.ready)
